@@ -23,6 +23,9 @@ FRAGMENTS = [
     '@param x: the x', '@type x: C{int}', '@return: something', '@rtype: L{int}', '@raise ValueError: bad', '@ivar v: v doc', '@unknown: field',
     '@param: no arg', '@type', '@see: L{other}', '@note: n', '@since: 1', '@param x: a\n    continued\n  badly',
     'Title\n=====', 'Sub\n---', 'Title\n==', '- item\n- item2', '1. one\n2. two', '  - nested\n     - deeper\n - dedent', '1. one\n3. three',
+    # a tokenizer warning first, a fatal error later (the order of the collected errors must not matter)
+    'Frob A.\n\n@note that this is slow B\n\n    This paragraph is indented too much C.', 'Frob A.\n\nUsage\n======\n\nCall it B.\n\n    Indented too much C.',
+    'Frob A.\n\n@note that this is slow B\n\nClosing brace without opening C} here.', '@note that this is slow\n\nText L{unclosed',
     'para::\n    literal\n      more', '>>> doctest(1)\n1', '>>> unfinished(', 'a\n\n\n\nb', '    indented start', 'x{y}z', 'G{classtree}',
     # reStructuredText
     ':param x: the x', ':type x: int', ':returns: r', ':rtype: int', ':raises ValueError: v', ':ivar v: doc', ':param: noarg', ':unknown field: x',
@@ -212,12 +215,26 @@ def _check1(case):
     if case['docformat'] == 'plaintext':
         effective = 'plaintext'
     cleaned = inspect.cleandoc(doc)
+    # a fatal epytext markup error (ParseError.is_fatal, collected by the epytext parser itself in the error list it is handed)
+    # must end in the plain-text fallback - asked of the parser directly, independently of how parse() ends
+    fatal_epytext = False
+    if effective == 'epytext' and cleaned:
+        from pydoctor.epydoc.markup import epytext as _ep
+        errs_ = []
+        try:
+            _ep.parse_docstring(cleaned, errs_)
+        except Exception:      # noqa
+            pass
+        fatal_epytext = any(getattr(e_, 'is_fatal', lambda: False)() for e_ in errs_)
     for n in list(system.allobjects):
         o = system.allobjects.get(n)
         if n in SENTINELS or o is None or o.docstring is None:
             continue
         pd = o.parsed_docstring
         gave_up = isinstance(pd, ParsedPlaintextDocstring) and effective in FORMATS and effective != 'plaintext'
+        if fatal_epytext and not gave_up and n not in ('m.Derived.inh',) and o.docstring == cleaned:
+            fails.append({'observed': f'{n}: the docstring has a fatal epytext error but is rendered as markup ({type(pd).__name__}): {html.unescape(got[n][0])!r:.160}',
+                          'required': 'any fatal epytext markup error: the complete original text is shown as plain text', 'class': 'fatal-not-plain'})
         if gave_up:
             if o.fullName() not in system.parse_errors['docstring']:
                 fails.append({'observed': f'{n}: the {effective} parser gave up (plain-text fallback) without a report against the object',
